@@ -457,12 +457,25 @@ def m_identifier(nm):
 
 
 def m_rol_keyword():
+    """values named like the reader's keywords as first operand of rol/ror, and values named rol / ror in
+    every position where a keyword is followed by a value (fixed in /repo: one more token of look-ahead)"""
     m = ir.Module("rolkw")
-    f, (a,) = _fn(m, "f", ir.u32, [("a", ir.u32)])
-    (e,) = _blocks(f, "entry")
-    ld = _add(e, ir.Binop(a, "+", a, "load", ir.u32))
-    x = _add(e, ir.Binop(ld, "rol", a, "x", ir.u32))
-    _add(e, ir.Return(x))
+    f, (rol, a) = _fn(m, "f", ir.u32, [("rol", ir.ptr), ("a", ir.u32)])
+    e, nxt = _blocks(f, "entry", "nxt")
+    acc = a
+    for kw in ["load", "phi", "alloc", "cast", "call", "literal", "volatile", "undefined", "float", "store"]:
+        v = _add(e, ir.Binop(acc, "+", a, kw, ir.u32))
+        acc = _add(e, ir.Binop(v, "rol" if len(kw) % 2 else "ror", a, "x_" + kw, ir.u32))
+    ld = _add(e, ir.Load(rol, "v_ld", ir.u32))
+    vl = _add(e, ir.Load(rol, "v_vl", ir.u32, volatile=True))
+    c = _add(e, ir.Cast(rol, "v_c", ir.u64))
+    y = _add(e, ir.FunctionCall(rol, [acc, ld], "v_y", ir.u32))
+    _add(e, ir.Jump(nxt))
+    p = _add(nxt, ir.Phi("v_p", ir.ptr))
+    p.set_incoming(e, rol)
+    ror = _add(nxt, ir.Binop(y, "ror", vl, "ror", ir.u32))
+    w = _add(nxt, ir.Binop(ror, "rol", ror, "w", ir.u32))
+    _add(nxt, ir.Return(w))
     return m
 
 
@@ -608,7 +621,7 @@ def corner_modules():
             ("finding-name-capture", m_capture_min(), "name-capture", "name-capture"),
             ("finding-identifier-dot", m_identifier("a.b"), "identifier", None),
             ("finding-identifier-dollar", m_identifier("x$1"), "identifier", None),
-            ("finding-rol-keyword", m_rol_keyword(), "rol-keyword", None)]
+            ("rol-keyword", m_rol_keyword(), None, None)]
     return out
 
 
